@@ -133,6 +133,16 @@ func (h *HelloPlan) Spec() *utls.ClientHelloSpec {
 		case "padding":
 			n := len(e.Data)
 			x = &utls.UtlsPaddingExtension{PaddingLen: n, WillPad: n > 0, GetPaddingLen: func(int) (int, bool) { return n, n > 0 }}
+		case "fakepsk":
+			// a pre_shared_key offer the server cannot decrypt: it is ignored and a full
+			// handshake follows; the extension has to be the last one
+			x = &utls.FakePreSharedKeyExtension{
+				Identities: []utls.PskIdentity{{Label: append([]byte(nil), e.Data...), ObfuscatedTicketAge: 0x01020304}},
+				Binders:    [][]byte{make([]byte, 32)},
+			}
+		case "realpsk":
+			// filled in by utls from the session cache (omitted when there is no session)
+			x = &utls.UtlsPreSharedKeyExtension{}
 		case "status":
 			x = &utls.StatusRequestExtension{}
 		case "sct":
